@@ -901,6 +901,7 @@ def plan(prop, tier, seed, known):
         for k in range(7):   # a file handle whose inode number is given to a new object while a request through it is between its retries
             jobs.append({"name": "winrecycle%d" % k, "kind": "lin", "also": ["C08"], "driver": ["windows", "-part", "-2", "-parts", "7", "-seed", str(k)]})
         jobs += fsproto_jobs(q, "C08")
+        jobs += commitwin_jobs(q, ["C08"])   # a directory removed and pushed out of the inode cache while a LOOKUP of ".." is between its two locks
         for k in ([(seed * 3 + j) % 32 for j in range(2)] if q else range(0, 32, 2)):
             jobs.append({"name": "win%d" % k, "kind": "lin", "also": ["C08"], "driver": ["windows", "-part", str(k), "-parts", "32"]})
     elif prop == "C12":
